@@ -290,7 +290,7 @@ static int far_load(struct module_data *m, HIO_HANDLE *f, const int start)
 	return -1;
 
     me = FAR_MODULE_EXTRAS(*m);
-    me->coarse_tempo = ffh.tempo;
+    me->init_coarse_tempo = me->coarse_tempo = ffh.tempo;
     me->fine_tempo = 0;
     me->tempo_mode = 1;
     m->time_factor = FAR_TIME_FACTOR;
